@@ -31,7 +31,14 @@ EXTENDS Integers, Sequences, FiniteSets, TLC
 (* configured class, r2 is declared with its own default=1 and needscfg=True.  Required and no value   *)
 (* configured => missing, whatever default exists in the class chain or is given in the configuration; *)
 (* the requirement is satisfied by a configured value (and by a constant).                             *)
-Params == {"a", "b", "n", "s", "l", "k", "z", "oi", "r1", "r2"}
+(* g1, g2 : written by ONE common hardware function (frappy.rwhandler.CommonWriteHandler): the call    *)
+(* triggered for one of them takes the configured value of the other along (out of the values waiting  *)
+(* to be written).  h1, h2 : plain write methods, write_h1 itself takes the value waiting for h2 along. *)
+(* Every configured value reaches the hardware exactly once - in a common call or in its own.          *)
+Params == {"a", "b", "n", "s", "l", "k", "z", "oi", "r1", "r2", "g1", "g2", "h1", "h2"}
+Consumes(p) == CASE p \in {"g1", "g2"} -> {"g1", "g2"}       \* what a hardware call triggered for p takes along
+                 [] p = "h1" -> {"h1", "h2"}
+                 [] OTHER -> {p}
 OptUnimplemented == {"ou", "od"}
 ClassConst == [z |-> [ty |-> "float", n |-> 6]]
 PInfo == [a |-> [ty |-> "float", lo |-> 0, hi |-> 200, write |-> TRUE,  needscfg |-> FALSE],
@@ -43,7 +50,11 @@ PInfo == [a |-> [ty |-> "float", lo |-> 0, hi |-> 200, write |-> TRUE,  needscfg
           z |-> [ty |-> "float", lo |-> 0, hi |-> 200, write |-> FALSE, needscfg |-> FALSE],
           oi |-> [ty |-> "float", lo |-> 0, hi |-> 200, write |-> TRUE, needscfg |-> FALSE],
           r1 |-> [ty |-> "float", lo |-> 0, hi |-> 200, write |-> FALSE, needscfg |-> TRUE],
-          r2 |-> [ty |-> "float", lo |-> 0, hi |-> 200, write |-> FALSE, needscfg |-> TRUE]]
+          r2 |-> [ty |-> "float", lo |-> 0, hi |-> 200, write |-> FALSE, needscfg |-> TRUE],
+          g1 |-> [ty |-> "float", lo |-> 0, hi |-> 200, write |-> TRUE, needscfg |-> FALSE],
+          g2 |-> [ty |-> "float", lo |-> 0, hi |-> 200, write |-> TRUE, needscfg |-> FALSE],
+          h1 |-> [ty |-> "float", lo |-> 0, hi |-> 200, write |-> TRUE, needscfg |-> FALSE],
+          h2 |-> [ty |-> "float", lo |-> 0, hi |-> 200, write |-> TRUE, needscfg |-> FALSE]]
 LimTy(p) == IF PInfo[p].ty \in {"float", "int"} THEN PInfo[p].ty ELSE "int"     \* type of the limits of p
 ModProps == {"mp", "op", "export"}         \* export = FALSE: the module and all its parameters are hidden
 MInfo == [mp |-> [ty |-> "int",   lo |-> 0, hi |-> 10, mandatory |-> TRUE],
